@@ -63,7 +63,7 @@ def run_one(m):
                     verdict = "MISSED"
                 elif "TOOL ERROR" in out or "cargo check failed" in out:
                     verdict = "TOOLERR"
-                elif rule and rule not in out:
+                elif rule and not any(r in out for r in rule.split('|')):
                     verdict = "WRONGRULE"
             else:
                 if fired:
@@ -87,7 +87,7 @@ def main():
         jobs = int(sys.argv[sys.argv.index("--jobs") + 1])
     ms = json.load(open(os.path.join(HERE, "mutants.json")))
     if only:
-        ms = [m for m in ms if only in m["id"]]
+        ms = [m for m in ms if any(o in m["id"] for o in only.split(','))]
     bad = 0
     with ThreadPoolExecutor(max_workers=jobs) as ex:
         for m, verdict, res in ex.map(run_one, ms):
